@@ -1,8 +1,37 @@
-(* C15 — One decode call consumes exactly one picture of a stream.
-   Proved so far: the two facts that bound what a call consumes; the full statement (N concatenated
-   pictures decode to the N separate pictures) needs the parser round trips and is tied by execution. *)
-From H263V Require Import base.Prelude model.Types model.Reader model.Header model.Syntax model.Recon model.Decoder
-  proofs.LoopBound.
+(* C15 — One decode call consumes exactly one picture of a stream. *)
+From H263V Require Import base.Prelude model.Types model.Reader model.Header model.Syntax model.Recon model.Decoder spec.SpecHeader
+  proofs.LoopBound proofs.Frame.
+
+(* THE PROPERTY, one call: a decode call that succeeds on a complete picture (all mb_per_line x mb_height macroblocks
+   present: `picture_complete`) returns the same state - the same picture - and stops at the same place whatever bits
+   follow in the source (`ext_r x r` = the reader r with x appended after its unread bits): further pictures, fewer than
+   eight zero padding bits, anything. *)
+Theorem C15_following_bits_irrelevant : forall s r0 s' r' x,
+  decode_next_picture s r0 = Ok (s', r') ->
+  picture_complete (st_opts s) (get_last_picture s) (running_options s) r0 ->
+  decode_next_picture s (ext_r x r0) = Ok (s', ext_r x r').
+Proof. exact decode_next_picture_frame. Qed.
+
+(* THE PROPERTY, the next call: in front of k < 8 zero bits that pad to the byte boundary and are followed by a start
+   code, a decode call does exactly what it does on the start code at the boundary *)
+Theorem C15_padding_is_skipped : forall s k rest pos, 0 <= k -> k = (8 - pos mod 8) mod 8 ->
+  decode_next_picture s (mkReader (repeat false (Z.to_nat k) ++ start_code ++ rest) pos)
+  = decode_next_picture s (mkReader (start_code ++ rest) (pos + k)).
+Proof. exact next_picture_after_padding. Qed.
+
+(* together: two pictures in one source *)
+Theorem C15_two_pictures_one_reader : forall s b1 p s1 k p1 rest2,
+  0 <= k -> k = (8 - p1 mod 8) mod 8 ->
+  decode_next_picture s (mkReader b1 p) = Ok (s1, mkReader (repeat false (Z.to_nat k)) p1) ->
+  picture_complete (st_opts s) (get_last_picture s) (running_options s) (mkReader b1 p) ->
+  decode_next_picture s (mkReader (b1 ++ start_code ++ rest2) p) = Ok (s1, mkReader (repeat false (Z.to_nat k) ++ start_code ++ rest2) p1) /\
+  decode_next_picture s1 (mkReader (repeat false (Z.to_nat k) ++ start_code ++ rest2) p1) = decode_next_picture s1 (mkReader (start_code ++ rest2) (p1 + k)).
+Proof. exact two_pictures_one_reader. Qed.
+
+(* the same for the header parser alone: a parsed header and the place where it ends do not depend on what follows *)
+Theorem C15_header_frame : forall o prev r0 v r' x,
+  decode_picture o prev r0 = Ok (v, r') -> decode_picture o prev (ext_r x r0) = Ok (v, ext_r x r').
+Proof. exact decode_picture_frame. Qed.
 
 (* the macroblock loop never goes beyond mb_per_line * mb_height macroblocks, whatever follows in the reader *)
 Theorem C15_macroblock_count_bound : forall fuel o np running mbpl total levw st st',
@@ -16,5 +45,9 @@ Theorem C15_start_code_window : forall r k,
   recognize_start_code false r = Ok (Some k) -> 0 <= k <= realignment_bits r + 1 /\ k <= 8.
 Proof. exact recognize_start_code_window. Qed.
 
+Print Assumptions C15_following_bits_irrelevant.
+Print Assumptions C15_padding_is_skipped.
+Print Assumptions C15_two_pictures_one_reader.
+Print Assumptions C15_header_frame.
 Print Assumptions C15_macroblock_count_bound.
 Print Assumptions C15_start_code_window.
